@@ -152,7 +152,7 @@ func clientSideCheck(c *chk.Ctx, enforce string, realResponses []*ceResp) {
 		if err := json.Unmarshal([]byte(rw), &cc); err != nil {
 			c.Broken("bad exported case: %v", err)
 		}
-		if !c.Thorough() && (i+int(c.Seed))%2 != 0 && cc.Body != "ve" && cc.Body != "err" && cc.Body != "custom" {
+		if false && (i+int(c.Seed))%2 != 0 && cc.Body != "ve" && cc.Body != "err" && cc.Body != "custom" { // (no sampling: both tiers run every case)
 			continue
 		}
 		class := "json"
